@@ -4409,7 +4409,7 @@ pub(crate) fn truncate_to_height_internal<P: consensus::Parameters>(
         )? {
             TreeTruncation::ToCheckpoint => wdb.with_sapling_tree_mut(|tree| {
                 let truncated =
-                    tree.truncate_to_checkpoint(&truncation_height)
+                    commitment_tree::truncate_to_checkpoint(tree, &truncation_height)
                         .map_err(|error| SqliteClientError::TruncateCommitmentTree {
                             pool: ShieldedPool::Sapling,
                             height: truncation_height,
@@ -4457,7 +4457,7 @@ pub(crate) fn truncate_to_height_internal<P: consensus::Parameters>(
         )? {
             TreeTruncation::ToCheckpoint => wdb.with_orchard_tree_mut(|tree| {
                 let truncated =
-                    tree.truncate_to_checkpoint(&truncation_height)
+                    commitment_tree::truncate_to_checkpoint(tree, &truncation_height)
                         .map_err(|error| SqliteClientError::TruncateCommitmentTree {
                             pool: ShieldedPool::Orchard,
                             height: truncation_height,
@@ -4506,7 +4506,7 @@ pub(crate) fn truncate_to_height_internal<P: consensus::Parameters>(
             TreeTruncation::ToCheckpoint => {
                 wdb.with_ironwood_tree_mut(|tree| {
                     let truncated =
-                        tree.truncate_to_checkpoint(&truncation_height)
+                        commitment_tree::truncate_to_checkpoint(tree, &truncation_height)
                             .map_err(|error| SqliteClientError::TruncateCommitmentTree {
                                 pool: ShieldedPool::Ironwood,
                                 height: truncation_height,
